@@ -49,7 +49,7 @@ def parse_out(line):
 class Check(DiffCheck):
     id = 'C11'
     coq_dirs = ['Base', 'C04', 'C11']
-    coq_targets = ['C11/C11_Proofs.vo', 'C11/C11_ProofsResp.vo', 'C11/C11_ProofsIso.vo']
+    coq_targets = ['C11/C11_ProofsSafety.vo', 'C11/C11_ProofsResp.vo', 'C11/C11_ProofsIso.vo', 'C11/C11_Proofs.vo']
     properties_v = 'C11/C11_Properties.v'
     extract_v = 'C11/C11_Extract.v'
     runner_ml = 'ocaml/C11_run.ml'
